@@ -24,6 +24,7 @@ TIME_BUDGET = {'quick': 170, 'thorough': 1700}
 STATES = ['fresh', 'unread', 'queued', 'closed', 'error', 'killed', 'stuck']
 REQUIRED = {'quick': {'state:' + s_: 15 for s_ in STATES}, 'thorough': {'state:' + s_: 150 for s_ in STATES}}
 REQUIRED['quick']['pipe:supplied'] = 100
+REQUIRED['quick']['falsy_userid'] = 100
 
 
 def examples(tier):
@@ -39,6 +40,7 @@ def strategy(tier):
         'kind': st.sampled_from(IC.PERSISTENT),
         'states': st.lists(st.sampled_from(STATES), min_size=1, max_size=3),
         'pipe': st.sampled_from(['own', 'supplied']),
+        'userid': st.sampled_from([0, 4711, 4711, '', None]),
     })
 
 
@@ -51,7 +53,10 @@ def run_case(case, ctx):
     out.label('kind:' + kind, 'pipe:' + case['pipe'])
     name = IC.fresh_name(ctx, 'c17')
     escape = os.path.join(ctx.scratch, name + '.escape')
-    kw = {'name': name, 'userid': 4711, 'args': ['D0', 'D1', escape]}
+    uid = case.get('userid', 4711)
+    kw = {'name': name, 'userid': uid, 'args': ['D0', 'D1', escape]}
+    if not uid:
+        out.label('falsy_userid')
     if kind.endswith('remote'):
         kw['host'] = IC.server(ctx).addr
     if case['pipe'] == 'supplied':
@@ -134,7 +139,7 @@ def run_case(case, ctx):
                 if not bounded(w.is_alive, 10):
                     out.viol('not_alive_after_restart', site, 'is_alive() False right after restart()')
                     break
-                if w.name != name or w.userid != 4711:
+                if w.name != name or w.userid != uid or type(w.userid) is not type(uid):
                     out.viol('identity_attributes_changed', site, f'name/userid after restart: {w.name!r}/{w.userid!r}')
                 if not thread:
                     if w.id == old_id:
